@@ -45,6 +45,9 @@ CLAIMED = {
  "C14": ("generated mixtures of fixed-mass molecules: variance-free interface oracle (probabilities recorded at rng.choice) and statistical outcome oracle (8 sigma of the ideal scheme + overshoot, re-confirmed)",
          "Systems of 2-4 molecules with heavy-atom masses 12-786 (ratios up to 65) and written mass fractions >= 2 % are generated to 800-2400 molecules; if the selection probabilities at the generator interface are stationary the mass share they imply must equal the written fraction exactly; the generated mass share of every component must lie within 8 sigma (ideal independent picks) plus the stop-rule overshoot of the written fraction, confirmed with a second seed. Convergence is sampled, never proved.",
          "Trusted: written fractions as ground truth; RDKit heavy-atom masses.", "DESIGN.md §2 C14"),
+ "C16": ("reference model, edge by edge: generated molecules, every descriptor node's reaction / termination / transition probabilities against the reference selection law; normalisation at every node",
+         "For generated molecules of every archetype (lists incl. onto end groups, ids, weighted and listed left terminals, weighted explicit connectors, mixed bond orders) the reaction graph must have one node per token and descriptor, and for every descriptor node each of prob / term_prob / trans_prob must be absent or sum to 1 and equal, target by target, the probability the reference law (validated against the real generator in C08) gives; p>0 edges join compatible descriptors only; atom edges carry the attachment atom.",
+         "Trusted: reference law of gbsv/reflaw.py; node mapping through Molecule.residues.", "DESIGN.md §2 C16"),
  "C15": ("breaking operators on generated valid instances with a must-be-rejected oracle (Hypothesis) + byte-level mutation and coverage-guided fuzzing (atheris/libFuzzer) under a deterministic step budget",
          "Generated-input search: 17 breaking operators, each producing an invalid string by construction, are applied at generated positions to valid well-posed molecules of every archetype; the broken string must end in an error at parse or at generate (non-generable for negative weights / missing distribution) - a produced molecule is the violation. Termination of the five constructors is explored with Hypothesis byte mutations of docs/tests strings and two atheris campaigns (seeded and empty corpus) under a line-event budget.",
          "Trusted: each operator's claim that its output is invalid (stated per operator in gbsv/checks/c15.py); termination is bounded liveness: 20000+2000*len line events inside gbigsmiles.", "DESIGN.md §2 C15"),
